@@ -39,57 +39,65 @@ mvars == <<m, closed>>
 Init == m = [k \in KeySet |-> NoVal] /\ closed = FALSE
 
 B(b) == IF b THEN 1 ELSE 0
-Has(k) == m[k] # NoVal
-Size == Cardinality({k \in KeySet : Has(k)})
 Inc(old, v) == IF old = NoVal THEN v ELSE (old % MaxVal) + 1
 EmptyMap == [k \in KeySet |-> NoVal]
-Put(k, v) == [m EXCEPT ![k] = v]
-Del(k) == [m EXCEPT ![k] = NoVal]
 
+(* The sequential semantics is written over an explicit map mm (KeySet -> Val \cup {NoVal}), so *)
+(* that the implementation-level layer (LockedMapShards.tla: one inner map per shard slot) can  *)
+(* apply the same definitions to an inner map; the object of the statement is mm = m.            *)
+HasIn(mm, k) == mm[k] # NoVal
+SizeIn(mm) == Cardinality({k \in KeySet : HasIn(mm, k)})
 (* the value a "set"/"inc" callback hands back *)
-NewVal(c) == IF c.md = "inc" THEN Inc(m[c.k], c.v) ELSE c.v
+NewValIn(mm, c) == IF c.md = "inc" THEN Inc(mm[c.k], c.v) ELSE c.v
 
-(* ---- state after the call ---- *)
-After(c) ==
-  IF closed THEN m
-  ELSE CASE c.op = "SetValue"    -> Put(c.k, c.v)
-         [] c.op = "RemoveValue" -> Del(c.k)
-         [] c.op = "GetOrCreate" -> IF ~Has(c.k) /\ c.md = "val" THEN Put(c.k, c.v) ELSE m
-         [] c.op = "Set"         -> IF c.md \in {"set", "inc"} THEN Put(c.k, NewVal(c)) ELSE m
-         [] c.op = "Remove"      -> IF c.md = "ok" THEN Del(c.k) ELSE m
-         [] c.op = "SetOrRemove" -> IF c.md \in {"set", "inc"} THEN Put(c.k, NewVal(c))
-                                    ELSE IF c.md = "rm" THEN Del(c.k) ELSE m
-         [] c.op \in {"Empty", "Close"} -> EmptyMap
-         [] OTHER -> m
-ClosedAfter(c) == closed \/ c.op = "Close"
+(* ---- state after the call (open map) ---- *)
+AfterIn(mm, c) ==
+  LET put(k, v) == [mm EXCEPT ![k] = v]
+      del(k) == [mm EXCEPT ![k] = NoVal] IN
+  CASE c.op = "SetValue"    -> put(c.k, c.v)
+    [] c.op = "RemoveValue" -> del(c.k)
+    [] c.op = "GetOrCreate" -> IF ~HasIn(mm, c.k) /\ c.md = "val" THEN put(c.k, c.v) ELSE mm
+    [] c.op = "Set"         -> IF c.md \in {"set", "inc"} THEN put(c.k, NewValIn(mm, c)) ELSE mm
+    [] c.op = "Remove"      -> IF c.md = "ok" THEN del(c.k) ELSE mm
+    [] c.op = "SetOrRemove" -> IF c.md \in {"set", "inc"} THEN put(c.k, NewValIn(mm, c))
+                               ELSE IF c.md = "rm" THEN del(c.k) ELSE mm
+    [] c.op \in {"Empty", "Close"} -> EmptyMap
+    [] OTHER -> mm
 
 (* ---- the answers of a sequential map (open) ---- *)
-Answer(c) ==
-  CASE c.op = "Exists"      -> <<B(Has(c.k))>>
-    [] c.op = "Value"       -> <<B(Has(c.k)), m[c.k]>>
-    [] c.op = "SetValue"    -> <<B(~Has(c.k))>>                                  \* added
-    [] c.op = "RemoveValue" -> <<B(Has(c.k))>>                                   \* removed
-    [] c.op = "Get"         -> <<0, B(Has(c.k)), m[c.k]>>                        \* callback saw (found, value)
-    [] c.op = "GetOrCreate" -> IF Has(c.k) THEN <<0, 0, m[c.k]>>                 \* callback saw (created, value)
+AnswerIn(mm, c) ==
+  LET has == HasIn(mm, c.k)  old == mm[c.k] IN
+  CASE c.op = "Exists"      -> <<B(has)>>
+    [] c.op = "Value"       -> <<B(has), old>>
+    [] c.op = "SetValue"    -> <<B(~has)>>                                       \* added
+    [] c.op = "RemoveValue" -> <<B(has)>>                                        \* removed
+    [] c.op = "Get"         -> <<0, B(has), old>>                                \* callback saw (found, value)
+    [] c.op = "GetOrCreate" -> IF has THEN <<0, 0, old>>                         \* callback saw (created, value)
                                ELSE CASE c.md = "val" -> <<0, 1, c.v>>
                                       [] c.md = "ign" -> <<2, Wild, Wild>>
                                       [] OTHER        -> <<3, Wild, Wild>>
     [] c.op = "Set"         -> \* <<code, created, returned value, callback saw found, saw value>>
-                               CASE c.md \in {"set", "inc"} -> <<0, B(~Has(c.k)), NewVal(c), B(Has(c.k)), m[c.k]>>
-                                 [] c.md = "ign"           -> <<2, 0, m[c.k], B(Has(c.k)), m[c.k]>>
-                                 [] OTHER                  -> <<3, 0, NoVal, B(Has(c.k)), m[c.k]>>
+                               CASE c.md \in {"set", "inc"} -> <<0, B(~has), NewValIn(mm, c), B(has), old>>
+                                 [] c.md = "ign"           -> <<2, 0, old, B(has), old>>
+                                 [] OTHER                  -> <<3, 0, NoVal, B(has), old>>
     [] c.op = "Remove"      -> \* <<code, removed, saw found, saw value>>
-                               CASE c.md = "ok"  -> <<0, B(Has(c.k)), B(Has(c.k)), m[c.k]>>
-                                 [] c.md = "ign" -> <<2, 0, B(Has(c.k)), m[c.k]>>
-                                 [] OTHER        -> <<3, 0, B(Has(c.k)), m[c.k]>>
+                               CASE c.md = "ok"  -> <<0, B(has), B(has), old>>
+                                 [] c.md = "ign" -> <<2, 0, B(has), old>>
+                                 [] OTHER        -> <<3, 0, B(has), old>>
     [] c.op = "SetOrRemove" -> \* <<code, created, removed, returned value, saw found, saw value>>
-                               CASE c.md \in {"set", "inc"} -> <<0, B(~Has(c.k)), 0, NewVal(c), B(Has(c.k)), m[c.k]>>
-                                 [] c.md = "rm"  -> <<0, 0, B(Has(c.k)), NoVal, B(Has(c.k)), m[c.k]>>
-                                 [] c.md = "ign" -> <<2, 0, 0, m[c.k], B(Has(c.k)), m[c.k]>>
-                                 [] OTHER        -> <<3, 0, 0, NoVal, B(Has(c.k)), m[c.k]>>
-    [] c.op = "Traverse"    -> [i \in 1..Len(Keys) |-> m[Keys[i]]]               \* visited key/value pairs
-    [] c.op = "Len"         -> <<Size>>
+                               CASE c.md \in {"set", "inc"} -> <<0, B(~has), 0, NewValIn(mm, c), B(has), old>>
+                                 [] c.md = "rm"  -> <<0, 0, B(has), NoVal, B(has), old>>
+                                 [] c.md = "ign" -> <<2, 0, 0, old, B(has), old>>
+                                 [] OTHER        -> <<3, 0, 0, NoVal, B(has), old>>
+    [] c.op = "Traverse"    -> [i \in 1..Len(Keys) |-> mm[Keys[i]]]              \* visited key/value pairs
+    [] c.op = "Len"         -> <<SizeIn(mm)>>
     [] OTHER                -> <<>>                                              \* Empty, Close
+
+Has(k) == HasIn(m, k)
+Size == SizeIn(m)
+After(c) == IF closed THEN m ELSE AfterIn(m, c)
+ClosedAfter(c) == closed \/ c.op = "Close"
+Answer(c) == AnswerIn(m, c)
 
 (* ---- after Close: the closed error, or the answer of an empty map where the  *)
 (* ---- interface has no error to give (weaker reading: Get and Remove may do   *)
